@@ -241,6 +241,30 @@ pub fn items(tier: Tier, id: &str) -> Vec<Item> {
             }
         }
     }
+    if id == "C10" || id == "C04" || id == "C03" || id == "C13" {
+        // chunk / ratio (fixed output) or chunk * ratio (fixed input) is a whole number: two
+        // algebraically equal ways of writing a size - chunk / ratio and chunk * (1 / ratio), or
+        // a * r and a / (1 / r) - differ by one unit in the last place exactly there, and the
+        // ceil / truncation that follows turns that into one frame
+        let pairs: [(usize, f64); 34] = [
+            (480, 0.96), (480, 0.48), (480, 0.24), (480, 1.92), (441, 0.91875), (882, 0.91875), (441, 0.459375),
+            (7, 0.7), (3, 0.3), (6, 0.6), (12, 1.2), (11, 1.1), (9, 0.9), (7, 0.35), (7, 1.4), (11, 2.2), (9, 0.45),
+            (11, 0.55), (13, 0.65), (13, 1.3), (17, 1.7), (17, 0.85), (19, 1.9), (19, 0.95),
+            (480, 0.91875), (10, 0.7), (10, 0.3), (20, 0.35), (5, 1.4), (5, 2.2), (20, 0.45), (10, 1.1), (10, 0.9), (240, 1.8375),
+        ];
+        let mut cfgs = Vec::new();
+        for (chunk, ratio) in pairs {
+            for kind in [Kind::SI, Kind::SO] {
+                cfgs.push(Cfg::sinc(kind, ratio, 2.0, chunk, 8, 2, Interp::Linear, Kernel::Probe));
+            }
+            for kind in [Kind::FI, Kind::FO] {
+                cfgs.push(Cfg::fast(kind, ratio, 2.0, chunk, Degree::Cubic));
+            }
+        }
+        for c in cfgs.chunks(8) {
+            out.push(Item { cfgs: c.to_vec(), f32_too: false });
+        }
+    }
     if id == "C09" || id == "C03" {
         // every kernel a caller can select explicitly (new_with_interpolator), not only the one
         // the run-time dispatch picks on this machine
@@ -315,7 +339,7 @@ pub fn spec_for(id: &str, tier: Tier, cfg: &Cfg) -> Spec {
         1
     };
     let alpha_deep = if q { Alpha::Ratio } else { alpha };
-    let big = cfg.kind.is_async() && cfg.chunk >= 1024;
+    let big = cfg.kind.is_async() && cfg.chunk >= 200;
     let horizon = if big {
         [8, 4, 2, 2]
     } else if q {
